@@ -12,7 +12,7 @@
 import sys, os, json, re, copy
 sys.path.insert(0, os.path.join(os.path.dirname(os.path.abspath(__file__)), "..", "lib"))
 from vlib import *
-import gen, gen_c18 as G
+import gen_c18 as G
 
 PROP = "C18"
 
@@ -740,7 +740,7 @@ def main():
     ck = Check(PROP)
     ck.cov["trusted_base"] = TRUSTED_BASE + [
         "net/url, encoding/json, yaml.v2 decoders: contracts (decode(encode x) = x) stated as hypotheses of same_request_same_call; exercised by the differential run",
-        "extract_c18 (go/ast, 600 lines): the regenerated dispatch table Gen/C18.lean is what it says the source contains",
+        "extract_c18 (go/ast, about 1000 lines): the regenerated dispatch table Gen/C18.lean is what it says the source contains",
         "the System counters (sys.GetStats) as the record of which System method ran; net/http/httptest as the HTTP transport",
         "the client-side encoders of lib/gen_c18.py (URL quoting, JSON, a small YAML emitter)"]
     ck.cov["checker_cmd"] = "go run harness/cmd/extract_c18 /repo lean/RulioModel/Gen/C18.lean && lake build Props.C18 && lake env lean .audit/Audit_C18.lean (#print axioms)"
